@@ -508,6 +508,20 @@ static void gen(int qi) {
             if (sl && (q->fl & QF_SLEN) && (idx / 2) % 2 == 1) { qscn u = s; u.sterm = 0; u.slen = sl; run_case(q, &u, idx); }
         }
     }
+    /* pass G: natural-order comparisons with blanks in front of digit runs (the order itself is left open there; the question is what is
+       read: an unterminated dest whose digit run ends exactly at dmax, blanks before it) */
+    if (q->ref == r_natcmp) {
+        static const uint32_t NB[] = {' ', '1', '2', 'a'};
+        size_t ml = g_tier ? 5 : 4;
+        for (size_t dl = 1; dl <= ml; dl++) for (unsigned long dc = 0; dc < ipow(4, dl); dc++)
+        for (size_t sl = 0; sl <= 3; sl++) for (unsigned long sc = 0; sc < ipow(4, sl); sc++) {
+            long idx = g_idx++; if (!pick(idx)) continue; if (!g_tier && idx % 3) continue;
+            memset(&s, 0, sizeof s); s.dl = dl; s.sl = sl; str_from(s.d, dl, dc, 4, NB); str_from(s.s, sl, sc, 4, NB);
+            s.dterm = 0; s.sterm = 1; s.dmax = dl; s.slen = (q->fl & QF_SLEN) ? sl + 1 : 0; s.fold = (int)(idx & 1); s.bos = (int)((idx / 2) & 1);
+            g_shm->cur = idx; run_case(q, &s, idx);
+            s.dterm = 1; s.dmax = dl + 1; run_case(q, &s, idx);
+        }
+    }
     /* pass D: longer haystacks with repeated partial matches for the two-operand searches */
     if (two && !(q->fl & QF_MEM) && (q->rk == RK_PTR || q->rk == RK_COUNT || q->rk == RK_STATUS)) {
         size_t hl = g_tier ? 9 : 6;
